@@ -5,7 +5,7 @@ from common import *
 import procgen as pg
 
 PROP_MODULES = ["HvsrVerif.Props.C01", "HvsrVerif.Props.C01Laws", "HvsrVerif.Props.C01Methods", "HvsrVerif.Props.C01Rot", "HvsrVerif.Props.C01Diffuse"]
-BRIDGE_MODULES = ["HvsrVerif.Bridge.C01", "HvsrVerif.Bridge.PyCombine", "HvsrVerif.Bridge.PyAzimuth"]
+BRIDGE_MODULES = ["HvsrVerif.Bridge.C01", "HvsrVerif.Bridge.PyCombine", "HvsrVerif.Bridge.PyAzimuth", "HvsrVerif.Bridge.PyFft"]
 
 
 def gen_case(rng, i):
